@@ -209,10 +209,18 @@ func rtPanic(kind string) {
 	case "nilderef":
 		var p *P
 		_ = p.A
+	case "nilrecv":
+		panic((*nilRecvErr)(nil))
 	default: // "nil"
 		panic(nil)
 	}
 }
+
+// nilRecvErr is an error whose Error method dereferences its receiver; panicking
+// with a typed nil pointer of it is legal, and fmt prints it as <nil>.
+type nilRecvErr struct{ msg string }
+
+func (e *nilRecvErr) Error() string { return e.msg }
 
 func rtPanicInfo(kind string) (msg, ty string) {
 	defer func() {
@@ -495,7 +503,7 @@ func genCb(r *Rng, ndefs, nerrs, depth int) *PCb {
 		case x == 2:
 			return &PCb{T: "panicErr", E: ip(r.Intn(nerrs))}
 		case x == 3:
-			return &PCb{T: "panicRt", Rt: Pick(r, []string{"nilmap", "index", "nilderef", "nil"})}
+			return &PCb{T: "panicRt", Rt: Pick(r, []string{"nilmap", "index", "nilderef", "nil", "nilrecv"})}
 		default:
 			return &PCb{T: "panicVal", Val: r.Intn(len(panicVals))}
 		}
